@@ -596,7 +596,7 @@ def parse_htraces(path):
     return res
 
 
-def replay_trace(elab, tr, clock_names=("sysclk",), reset_names=("reset",), reset_active="1", case_merge=False, stats=None):
+def replay_trace(elab, tr, clock_names=("sysclk",), reset_names=("reset",), reset_active="1", case_merge=False, stats=None, meta=None):
     """tr: circ.parse_traces entry (one sample per period, events E e R1 R0) or parse_htraces entry (one sample per HALF
     period, events E e R1@port R0@port, `meta` naming the exported clock / reset ports).  The clock edges and reset levels
     of the real simulator's event log are applied to the VHDL ports in the recorded order; whether a register reacts to a
@@ -604,7 +604,7 @@ def replay_trace(elab, tr, clock_names=("sysclk",), reset_names=("reset",), rese
     Returns None or dict(cycle=, pin=, expected=, observed=, ...)"""
     it = Interp(elab, case_merge=case_merge)
     ports = {pn: (d, n) for pn, d, n in elab.top_ports}
-    meta = tr.get("meta") or {}
+    meta = tr.get("meta") or meta or {}      # period traces carry no port names: the caller passes the design's .meta
     if meta.get("clkport", "-") != "-":
         clock_names = (meta["clkport"],)
     if "resets" in meta:
